@@ -2263,7 +2263,7 @@ fn order_targets(mut ts: Vec<Target>) -> Vec<Target> {
     ts
 }
 
-pub fn run(src_dir: &str, out_dir: &str) -> (usize, usize) {
+pub fn run(src_dir: &str, out_dir: &str, locals: &crate::rename::Locals) -> (usize, usize) {
     let mut report: BTreeMap<String, String> = BTreeMap::new();
     let mut targets: Vec<Target> = vec![];
     let mut params_defs = String::new();
@@ -2386,6 +2386,12 @@ pub fn run(src_dir: &str, out_dir: &str) -> (usize, usize) {
         },
     }
     let targets = order_targets(targets);
+    // locals renamed by a maintainer are renamed back to the pinned names (rename.rs): the state order of the loops and
+    // the shape of the generated proofs depend on them
+    let targets: Vec<Target> = targets.into_iter().map(|mut t| {
+        if let Some(n) = locals.normalise(&format!("L:{}", t.key), &mut t.item) { report.insert(format!("renamed-locals:{}", t.key), n); }
+        t
+    }).collect();
     // ---- signatures of everything (so that calls type-check even when the callee is skipped)
     let mut g = Global { sigs: builtin_sigs() };
     for t in &targets {
